@@ -246,7 +246,7 @@ Theorem tight_disable_is_final : forall env st rest,
 Proof.
   intros env st rest. cbn [run_args].
   assert (P : process_arg env st (s_disable :: rest) =
-              (1%nat, {| t_initted := t_initted (init_ft env st); t_enabled := false; t_root := t_root (init_ft env st) |})).
+              (1%nat, {| t_initted := t_initted (init_ft env st); t_enabled := false; t_root := t_root (init_ft env st); t_rootset := t_rootset (init_ft env st) |})).
   { unfold process_arg. replace (list_eqb s_disable s_ftproot) with false by reflexivity.
     replace (list_eqb s_disable s_disable) with true by reflexivity. reflexivity. }
   rewrite P. apply run_args_keeps_disabled; simpl; auto. apply init_initted.
@@ -277,7 +277,7 @@ Theorem tight_root_is_last_given : forall env st p rest,
 Proof.
   intros env st p rest Hd Hl Hno. cbn [run_args].
   assert (P : process_arg env st (s_ftproot :: p :: rest) =
-              (2%nat, {| t_initted := t_initted (init_ft env st); t_enabled := t_enabled (init_ft env st); t_root := strip_slash p |})).
+              (2%nat, {| t_initted := t_initted (init_ft env st); t_enabled := t_enabled (init_ft env st); t_root := strip_slash p; t_rootset := true |})).
   { unfold process_arg. replace (list_eqb s_ftproot s_ftproot) with true by reflexivity.
     unfold set_root. rewrite Hd.
     replace ((Zlength p =? 0) || (Zlength p >? C19_PATH_MAX - 1) || negb true) with false; [reflexivity|].
@@ -290,8 +290,8 @@ Qed.
 (* non-vacuity: unusable home directory, -disablefiletransfer followed by a valid -ftproot *)
 Example tight_args_nonvacuous :
   let env := {| pw_home := Some [47; 120]; dir_ok := fun p => list_eqb (strip_slash p) [47; 114] |} in
-  run_args env tinit0 [s_disable; s_ftproot; [47; 114]] = {| t_initted := true; t_enabled := false; t_root := [47; 114] |} /\
-  run_args env tinit0 [s_ftproot; [47; 114; 47]; [45; 120]] = {| t_initted := true; t_enabled := true; t_root := [47; 114] |}.
+  run_args env tinit0 [s_disable; s_ftproot; [47; 114]] = {| t_initted := true; t_enabled := false; t_root := [47; 114]; t_rootset := true |} /\
+  run_args env tinit0 [s_ftproot; [47; 114; 47]; [45; 120]] = {| t_initted := true; t_enabled := true; t_root := [47; 114]; t_rootset := true |}.
 Proof. vm_compute. auto. Qed.
 
 (* ------------------------------------------------------------------ audit follow-up (notes/audit_B.md, C19 items 2 and 7) *)
@@ -335,3 +335,75 @@ Proof.
   { rewrite Z.gtb_ltb. apply Z.ltb_ge. exact Hl. }
   rewrite E1, E2. cbn. split; reflexivity.
 Qed.
+
+(* ------------------------------------------------------------------ F19e repaired (notes/fix_C19_6.diff): transfer is on
+   only if a root directory has been accepted *)
+Definition root_justified (env : tenv) (st : tinit) : Prop :=
+  t_rootset st = true -> exists p, dir_ok env p = true /\ 0 < Zlength p /\ t_root st = strip_slash p.
+
+Lemma set_root_justified : forall env p st,
+  root_justified env st -> root_justified env (snd (set_root env p st)).
+Proof.
+  intros env p st H. unfold set_root.
+  destruct (Zlength p =? 0) eqn:E0; cbn [orb]; [exact H|].
+  destruct (Zlength p >? C19_PATH_MAX - 1); cbn [orb]; [exact H|].
+  destruct (dir_ok env p) eqn:Ed; cbn [negb]; [|exact H].
+  intros _. exists p. cbn. repeat split; auto. apply Z.eqb_neq in E0. pose proof (Zlength_correct p). lia.
+Qed.
+
+Lemma init_justified : forall env st, root_justified env st -> root_justified env (init_ft env st).
+Proof.
+  intros env st H. unfold init_ft. destruct (t_initted st); [exact H|].
+  set (st1 := {| t_initted := false; t_enabled := t_enabled st; t_root := []; t_rootset := false |}).
+  assert (H1 : root_justified env st1) by (intro X; discriminate X).
+  destruct (pw_home env) as [[|c h]|]; try (intro X; cbn in X; discriminate X).
+  pose proof (set_root_justified env (c :: h) st1 H1) as H2. intro X. cbn in X. destruct (H2 X) as [p Hp]. exists p. exact Hp.
+Qed.
+
+Lemma process_arg_justified : forall env st argv,
+  root_justified env st -> root_justified env (snd (process_arg env st argv)).
+Proof.
+  intros env st argv H. unfold process_arg. pose proof (init_justified env st H) as Hi.
+  destruct argv as [|a tl]; [exact Hi|].
+  destruct (list_eqb a s_ftproot).
+  - destruct tl as [|p tl2]; [exact Hi|].
+    pose proof (set_root_justified env p (init_ft env st) Hi) as Hs.
+    destruct (set_root env p (init_ft env st)) as [ok st']. cbn [snd] in Hs. destruct ok; [exact Hs|exact Hi].
+  - destruct (list_eqb a s_disable); [|exact Hi]. intro X. cbn in X. destruct (Hi X) as [p Hp]. exists p. exact Hp.
+Qed.
+
+Lemma run_args_justified : forall env args st, root_justified env st -> root_justified env (run_args env st args).
+Proof.
+  intros env args. remember (length args) as n eqn:Hn. revert args Hn.
+  induction n as [n IH] using lt_wf_ind. intros args Hn st H.
+  destruct args as [|a tl]; [exact H|]. cbn [run_args].
+  pose proof (process_arg_justified env st (a :: tl) H) as Pj.
+  destruct (process_arg env st (a :: tl)) as [h st']. cbn [snd] in Pj.
+  assert (R1 : root_justified env (run_args env st' tl)).
+  { eapply (IH (length tl)); eauto. subst n. simpl. lia. }
+  destruct h as [|[|[|h]]]; auto.
+  destruct tl as [|p tl2]; auto.
+  eapply (IH (length tl2)); eauto. subst n. simpl. lia.
+Qed.
+
+(* with the repair: after any command line, transfer is on only with a root that is (the stripped name of) an
+   openable directory - the user's home or a -ftproot argument; "-ftproot /" keeps working (strip_slash "/" = "") *)
+Theorem tight_enabled_implies_root_fixed : forall env args,
+  t_effective true (run_args env tinit0 args) = true ->
+  exists p, dir_ok env p = true /\ 0 < Zlength p /\ t_root (run_args env tinit0 args) = strip_slash p.
+Proof.
+  intros env args H. unfold t_effective in H. apply andb_true_iff in H. destruct H as [_ H]. cbn [negb orb] in H.
+  apply (run_args_justified env args tinit0); [intro X; discriminate X|exact H].
+Qed.
+
+(* -disablefiletransfer stays final in both flows *)
+Theorem tight_effective_disable_is_final : forall fx env st rest,
+  t_effective fx (run_args env st (s_disable :: rest)) = false.
+Proof. intros. unfold t_effective. rewrite tight_disable_is_final. reflexivity. Qed.
+
+(* the F19e situation in the repaired flow: off *)
+Example tight_no_root_fixed_w :
+  t_effective true (run_args {| pw_home := None; dir_ok := fun _ => true |} tinit0 [[45; 120]]) = false /\
+  t_effective false (run_args {| pw_home := None; dir_ok := fun _ => true |} tinit0 [[45; 120]]) = true /\
+  t_effective true (run_args {| pw_home := None; dir_ok := fun _ => true |} tinit0 [s_ftproot; [47]]) = true.
+Proof. vm_compute. auto. Qed.
